@@ -311,8 +311,8 @@ struct Exec {
   void do_insert(const sim::Op& op) {
     auto can = insertable(); if (can.empty() || F.size() >= (int)p.geti("maxcells", 12)) { r.skipped(); return; }
     if constexpr (FAM == RU && VINE && !MAPC) {
-      // known finding C06-KF11: vector-container RU: an insertion that follows a vine swap and a removal is mis-reduced
-      if (had_swap && had_removal) { r.count("probe.ru_vector_insert_after_swap_and_removal"); if (r.kf("C06-KF11")) { obs.tainted = true; r.skipped(); return; } }
+      // (fixed finding C06-KF11: vector-container RU: an insertion that follows a vine swap and a removal was mis-reduced)
+      if (had_swap && had_removal) { r.count("probe.ru_vector_insert_after_swap_and_removal"); }
     }
     if constexpr (FAM == CHAIN && VINE) { if (had_swap) { r.count("probe.chain_insert_after_swap"); if (r.kf("C06-KF6")) { obs.tainted = true; r.skipped(); return; } } }
     int c = can[op.arg(0) % can.size()];
@@ -341,8 +341,8 @@ struct Exec {
     if constexpr (CAN_REMOVE_LAST) {
       if (F.size() == 0) { r.skipped(); return; }
       if constexpr (FAM == RU && VINE && MAPC && ROWS) { r.count("probe.ru_map_rows_removal"); if (r.kf("C06-KF5")) { obs.tainted = true; r.skipped(); return; } }
-      if constexpr (FAM == RU && VINE && !MAPC) { if (had_swap) { r.count("probe.ru_vector_removal_after_swap"); if (r.kf("C06-KF11")) { obs.tainted = true; r.skipped(); return; } } }
-      if constexpr (FAM == RU && VINE && MAPC && !BARCODE) { if (had_swap) { r.count("probe.ru_map_nobarcode_removal_after_swap"); if (r.kf("C06-KF12")) { obs.tainted = true; r.skipped(); return; } } }
+      if constexpr (FAM == RU && VINE && !MAPC) { if (had_swap) { r.count("probe.ru_vector_removal_after_swap"); } }
+      if constexpr (FAM == RU && VINE && MAPC && !BARCODE) { if (had_swap) { r.count("probe.ru_map_nobarcode_removal_after_swap"); } }
       if constexpr (FAM == RU && VINE) {
         // C06-KF2 also covers removals: erase_empty_row is called with the position while the maps are keyed by row identifier
         bool ids_are_positions = true; for (int k = 0; k < F.size(); ++k) if (rowids[k] != k) ids_are_positions = false;
@@ -407,8 +407,8 @@ struct Exec {
           if (!ids_are_positions) { r.count("probe.ru_swap_with_custom_ids"); if (r.kf("C06-KF2")) { obs.tainted = true; r.skipped(); return true; } }
         }
         if constexpr (FAM == RU && !BARCODE) {
-          // known finding C06-KF12: without stored barcode the RU matrix throws from its pivot table during swaps
-          r.count("probe.ru_map_nobarcode_swap"); if (r.kf("C06-KF12")) { obs.tainted = true; r.skipped(); return true; }
+          // (fixed finding C06-KF12: without stored barcode the RU matrix threw from its pivot table during swaps)
+          r.count("probe.ru_map_nobarcode_swap");
         }
         if constexpr (FAM == CHAIN && !BARCODE) {
           // known finding C06-KF10: the user comparators are documented to receive positions but are called with column indices
@@ -469,8 +469,8 @@ struct Exec {
         }
         int k = cand[op.arg(0) % cand.size()];
         if (op.arg(1) % 2 == 0 && last_swap >= 0 && last_swap + 1 < n && !F.has_coface(last_swap + 1)) k = last_swap + 1;  // right after a swap involving it
-        if constexpr (FAM == RU && VINE && !MAPC) { if (had_swap || k != n - 1) { r.count("probe.ru_vector_removal_after_swap"); if (r.kf("C06-KF11")) { obs.tainted = true; r.skipped(); return true; } } }
-        if constexpr (FAM == RU && VINE && MAPC && !BARCODE) { if (had_swap || k != n - 1) { r.count("probe.ru_map_nobarcode_remove_maximal"); if (r.kf("C06-KF12")) { obs.tainted = true; r.skipped(); return true; } } }
+        if constexpr (FAM == RU && VINE && !MAPC) { if (had_swap || k != n - 1) { r.count("probe.ru_vector_removal_after_swap"); } }
+        if constexpr (FAM == RU && VINE && MAPC && !BARCODE) { if (had_swap || k != n - 1) { r.count("probe.ru_map_nobarcode_remove_maximal"); } }
         if constexpr (FAM == CHAIN) { if (had_swap || k != n - 1) { r.count("probe.chain_remove_maximal_after_swap"); if (r.kf("C06-KF7")) { obs.tainted = true; r.skipped(); return true; } } }
         if constexpr (FAM == CHAIN && IDX == 1) {
           // known finding C06-KF4: the position overlay does not follow the column exchanges done while the cell is moved to the end
